@@ -384,7 +384,11 @@ let () =
            if inject = None && not post_struct_ok then bump dist "steps_with_incoherent_structure_after";
            (* components computed from the walked entry list are judged only when the walk is meaningful; results, scalars,
               drops and callback counts are judged regardless *)
-           let chkw name ok = if post_struct_ok || inject <> None then chk name ok in
+           (* the walk itself is meaningless only when it ran into freed / foreign memory or did not terminate; a walk that is merely
+              inconsistent with the table (fewer or more nodes than len, a node that is not a full bucket) still is what
+              iteration yields, and the components that speak about contents and order are judged on it *)
+           let walk_garbage = (match post.graph with Some g -> g.g_dangling || g.g_overlong | None -> false) in
+           let chkw name ok = if not walk_garbage || inject <> None then chk name ok in
            (match inject with
             | Some (kname, nth) ->
               (* ---- an injected panic: compare with the model's panic points (C16) ---- *)
